@@ -280,10 +280,14 @@ func (ii *invertedIndex) put(key, seriesID uint32) {
 }
 
 func (ii *invertedIndex) getSeriesIDs(key uint32) (*roaring.Bitmap, error) {
+	result := roaring.New()
+	// memory first, then the snapshot taken after that: a flush moves entries from memory into a new table,
+	// in the other order the moved entries would be in neither.
+	ii.findSeriesIDsByKeyFromMem(key, result)
+
 	snapshot := ii.family.GetSnapshot()
 	defer snapshot.Close()
 
-	result := roaring.New()
 	seriesIDs := roaring.New()
 	if err := snapshot.Load(key, func(value []byte) error {
 		if _, err := bitmapUnmarshal(seriesIDs, value); err != nil {
@@ -295,15 +299,20 @@ func (ii *invertedIndex) getSeriesIDs(key uint32) (*roaring.Bitmap, error) {
 	}); err != nil {
 		return nil, err
 	}
-	ii.findSeriesIDsByKeyFromMem(key, result)
 	return result, nil
 }
 
 func (ii *invertedIndex) findSeriesIDsByKeys(keys *roaring.Bitmap) (*roaring.Bitmap, error) {
+	result := roaring.New()
+	// memory first, then the snapshot taken after that(see getSeriesIDs)
+	memIt := keys.Iterator()
+	for memIt.HasNext() {
+		ii.findSeriesIDsByKeyFromMem(memIt.Next(), result)
+	}
+
 	snapshot := ii.family.GetSnapshot()
 	defer snapshot.Close()
 
-	result := roaring.New()
 	seriesIDs := roaring.New()
 	it := keys.Iterator()
 	for it.HasNext() {
@@ -318,7 +327,6 @@ func (ii *invertedIndex) findSeriesIDsByKeys(keys *roaring.Bitmap) (*roaring.Bit
 		}); err != nil {
 			return nil, err
 		}
-		ii.findSeriesIDsByKeyFromMem(key, result)
 	}
 	return result, nil
 }
@@ -422,14 +430,14 @@ func (fi *forwardIndex) put(tagKeyID, tagValueID, seriesID uint32) {
 }
 
 func (fi *forwardIndex) findSeriesIDsForTag(tagKeyID tag.KeyID) (*roaring.Bitmap, error) {
-	snapshot := fi.family.GetSnapshot()
-	defer snapshot.Close()
-
 	result := roaring.New()
-	// read data from mem
+	// read data from mem first, then from the snapshot taken after that(a flush moves entries from memory into a new table)
 	fi.loadSeriesIDsInMem(tagKeyID, func(tagIndex *imap.IntMap[uint32]) {
 		result.Or(tagIndex.Keys())
 	})
+
+	snapshot := fi.family.GetSnapshot()
+	defer snapshot.Close()
 
 	// read data from kv store
 	// try to get tag key id from kv store
@@ -454,12 +462,18 @@ func (fi *forwardIndex) findSeriesIDsForTag(tagKeyID tag.KeyID) (*roaring.Bitmap
 
 // GetGroupingContext returns the context of group by
 func (fi *forwardIndex) GetGroupingContext(ctx *flow.ShardExecuteContext) error {
-	snapshot := fi.family.GetSnapshot()
-	defer snapshot.Close()
-
 	scannerMap := make(map[tag.KeyID][]flow.GroupingScanner)
 	tagKeyIDs := ctx.StorageExecuteCtx.GroupByTagKeyIDs
 	seriesIDs := ctx.SeriesIDsAfterFiltering
+	// memory first(for every tag key), then the snapshot taken after that: a flush moves entries from memory
+	// into a new table, in the other order the moved entries would be in neither.
+	memScanners := make(map[tag.KeyID][]flow.GroupingScanner)
+	for _, tagKeyID := range tagKeyIDs {
+		memScanners[tagKeyID] = fi.getMemGroupingScanners(tagKeyID, seriesIDs)
+	}
+	snapshot := fi.family.GetSnapshot()
+	defer snapshot.Close()
+
 	finalSeriesIDs := seriesIDs.Clone()
 	defer func() {
 		// maybe filtering some series ids that is result of filtering.
@@ -468,7 +482,7 @@ func (fi *forwardIndex) GetGroupingContext(ctx *flow.ShardExecuteContext) error 
 	}()
 	for _, tagKeyID := range tagKeyIDs {
 		// get grouping scanners by tag key
-		scanners, err := fi.getGroupingScanners(tagKeyID, seriesIDs, snapshot)
+		scanners, err := fi.getGroupingScanners(tagKeyID, seriesIDs, snapshot, memScanners[tagKeyID])
 		if err != nil {
 			return err
 		}
@@ -488,12 +502,8 @@ func (fi *forwardIndex) GetGroupingContext(ctx *flow.ShardExecuteContext) error 
 	return nil
 }
 
-// getGroupingScanners returns the grouping scanner list for tag key, need match series ids
-func (fi *forwardIndex) getGroupingScanners(
-	tagKeyID tag.KeyID,
-	seriesIDs *roaring.Bitmap,
-	snapshot version.Snapshot,
-) ([]flow.GroupingScanner, error) {
+// getMemGroupingScanners returns the grouping scanner list of the memory stores for tag key, need match series ids
+func (fi *forwardIndex) getMemGroupingScanners(tagKeyID tag.KeyID, seriesIDs *roaring.Bitmap) []flow.GroupingScanner {
 	var result []flow.GroupingScanner
 	// read data from mem
 	fi.loadSeriesIDsInMem(tagKeyID, func(tagIndex *imap.IntMap[uint32]) {
@@ -505,6 +515,18 @@ func (fi *forwardIndex) getGroupingScanners(
 		}
 		result = append(result, &memGroupingScanner{forward: tagIndex, withLock: fi.withLock})
 	})
+	return result
+}
+
+// getGroupingScanners returns the grouping scanner list for tag key, need match series ids
+func (fi *forwardIndex) getGroupingScanners(
+	tagKeyID tag.KeyID,
+	seriesIDs *roaring.Bitmap,
+	snapshot version.Snapshot,
+	memScanners []flow.GroupingScanner,
+) ([]flow.GroupingScanner, error) {
+	// data from mem(read before the snapshot was taken)
+	result := memScanners
 
 	// read data from kv store
 	// try to get tag key id from kv store
